@@ -5,7 +5,7 @@
    implementation's solution is CHECKED against them exactly (in Q) by the correspondence run. *)
 From Coq Require Import List Reals QArith.
 From FDAV Require Import Base.Num Base.Vec Model.Basis Model.Pspline
-  Lemmas.Vec Lemmas.Gram Lemmas.Pspline Lemmas.PsplineConst.
+  Lemmas.Vec Lemmas.Gram Lemmas.Pspline Lemmas.PsplineConst Lemmas.PsplineLinear.
 Import ListNotations.
 Local Open Scope R_scope.
 
@@ -73,11 +73,11 @@ Theorem C05_diff_annihilates_quadratic : forall a b c n,
   diffn opsR 3 (map (fun j => a + b * INR j + c * (INR j * INR j)) (seq 0 (S (S (S n))))) = map (fun _ => 0) (seq 0 n).
 Proof. exact diff_annihilates_quadratic. Qed.
 Print Assumptions C05_diff_annihilates_quadratic.
-(* C05_poly_reproduction_partial: "every polynomial of degree < order is reproduced" is proved END TO END for
-   degree 0 (constants, any penalty order >= 1: C05_constants_reproduced below, on the very design and
-   penalty matrices the correspondence check executes, 1-D).  For degrees 1 and 2 it additionally needs
-   Marsden's identity (polynomials lie in the spline space with polynomial coefficient sequences) and the
-   identification of [diffmat] with [diffn]; NOT proved — monitored on the implementation. *)
+(* C05_poly_reproduction_partial: "every polynomial of degree < order is reproduced" is proved END TO END, on
+   the very design and penalty matrices the correspondence check executes (1-D), for degree 0 (constants, any
+   penalty order >= 1: C05_constants_reproduced) and degree 1 (affine functions, any penalty order >= 2:
+   C05_affine_reproduced, through the Greville identity of Lemmas/Greville.v).  Degree 2 (order 3) needs the
+   quadratic case of Marsden's identity: NOT proved — monitored on the implementation; so is the n-D case. *)
 Theorem C05_difference_penalty_annihilates_constants : forall c nb d,
   mv opsR (diffmat opsR nb (S d)) (repeat c nb) = zeros opsR (length (diffmat opsR nb (S d))).
 Proof. exact diffmat_const. Qed.
@@ -96,6 +96,19 @@ Theorem C05_constants_reproduced : forall a b nseg p, a < b -> (0 < nseg)%nat ->
   nth k (fitted opsR (design a b nseg p xs) beta) 0 = c.
 Proof. exact constants_reproduced. Qed.
 Print Assumptions C05_constants_reproduced.
+Theorem C05_difference_penalty_annihilates_affine : forall A0 B0 nb d,
+  mv opsR (diffmat opsR nb (S (S d))) (map (fun j => A0 + B0 * INR j) (seq 0 nb)) = zeros opsR (length (diffmat opsR nb (S (S d)))).
+Proof. exact diffmat_affine. Qed.
+Print Assumptions C05_difference_penalty_annihilates_affine.
+Theorem C05_affine_reproduced : forall a b nseg p, a < b -> (0 < nseg)%nat -> (1 <= p)%nat ->
+  forall al be lam d w xs beta k, Forall (fun x => a <= x <= b) xs ->
+  length beta = (nseg + p)%nat -> Forall (fun v => 0 <= v) w -> 0 <= lam ->
+  Aop opsR (nseg + p) (design a b nseg p xs) w (pens1 opsR (nseg + p) (S (S d)) lam) beta
+    = rhs opsR (nseg + p) (design a b nseg p xs) w (map (fun x => al + be * x) xs) ->
+  (k < length xs)%nat -> (k < length w)%nat -> 0 < nth k w 0 ->
+  nth k (fitted opsR (design a b nseg p xs) beta) 0 = al + be * nth k xs 0.
+Proof. exact affine_reproduced. Qed.
+Print Assumptions C05_affine_reproduced.
 
 (* leverages lie in [0,1] *)
 Theorem C05_leverage_in_unit_interval : forall nb B w pens i z, wfB nb B -> wfP nb pens -> length z = nb ->
